@@ -3,6 +3,10 @@
 C11.a the parent-match predicate covers the documented fields: the closure of Parent::is_parent compares node type,
   size and mtime of the parent node with the current node, and ctime unless ignore_ctime; a failed comparison yields
   'no match'.
+C11.a also: is_parent returns the very node its predicate accepted (Iterator::find(predicate)); the recorded ctime keeps
+  sub-second resolution (LocalSourceSaveOptions::ctime uses ctime_nsec).
+C11.b also: the list tested against the index is the parent content that is copied (same receiver root), in either form
+  all(has_data) / !any(!has_data).
 C11.b reuse only if all chunks are indexed: in Parent::process a file is reported Matched (content taken from the
   parent) only if `all(|id| index.has_data(id))` over the parent's content holds; otherwise NotFound (re-read).
 C11.c = C07.d (unchanged-tree shortcut compares ids).
